@@ -124,4 +124,660 @@ class SimComponent(Component):
         }
 
 
-COMPONENTS = {c.name: c for c in [SimComponent()]}
+
+
+def std_report(case, agree, model, impl, checks=None, tags=(), nontrivial=True, sample=None, dig=None,
+               in_domain=True, extra=None):
+    rep = {"agree": bool(agree), "in_domain": in_domain,
+           "diff": None if agree else {"model": jsonable(model), "impl": jsonable(impl)},
+           "checks": checks or {}, "tags": list(tags), "nontrivial": nontrivial,
+           "digest": dig or digest(jsonable(case)), "sample": sample if sample is not None else jsonable(case),
+           "case": case, "impl": jsonable(impl)}
+    if extra:
+        rep.update(extra)
+    return rep
+
+
+def ints_in(msg):
+    import re
+    return [int(x) for x in re.findall(r"\d+", msg)]
+
+
+# =============================================================================== icase
+class IcaseComponent(Component):
+    name = "icase"
+    ALPH = "aAbB1 "
+
+    def make(self, rng, params):
+        alph = params.get("alphabet") or "".join(chr(c) for c in range(32, 127))
+        n = params.get("maxlen", 8)
+        a = "".join(rng.choice(alph) for _ in range(rng.randint(0, n)))
+        r = rng.random()
+        if r < 0.3:
+            b = gen.recase(rng, a, 1.0)
+        elif r < 0.5 and a:
+            i = rng.randrange(len(a))
+            b = gen.recase(rng, a[i:rng.randint(i, len(a))], 1.0)
+        else:
+            b = "".join(rng.choice(alph) for _ in range(rng.randint(0, n)))
+        return {"a": a, "b": b}
+
+    def run(self, case):
+        import implrun
+        impl = implrun.run_icase(case["a"], case["b"])
+        return [case["a"], case["b"]], impl
+
+    def judge(self, case, impl, res):
+        m = jsonable(res["model"][0])
+        i = jsonable([int(impl[0]), int(impl[1]), int(impl[2]), int(impl[3])] + list(impl[4:]))
+        # hash: equal strings must hash equally (unequal ones may collide)
+        agree = m[:2] == i[:2] and m[3:] == i[3:]
+        checks = {"C18": [(not impl[0]) or bool(impl[2]), "equal keys hash equally"]}
+        a, b = case["a"], case["b"]
+        return std_report(case, agree, m, i, checks,
+                          tags=[f"eq:{int(impl[0])}", f"lt:{int(impl[1])}", f"in:{int(impl[3])}"],
+                          nontrivial=a != b and (a.lower() == b.lower() or len(a) > 0 and len(b) > 0))
+
+
+# =============================================================================== bag
+class BagComponent(Component):
+    name = "bag"
+
+    def make(self, rng, params):
+        keys = ["u0", "u1", "u2", "ALU", "b"]
+        vals = params.get("vals") or [[0, "U"], [0, "D"], [1, "U"], [1, "S"], [2, "D"]]
+
+        def rec():
+            ks = rng.sample(keys, rng.randint(0, params.get("maxunits", 4)))
+            return [[k, [list(rng.choice(vals)) for _ in range(rng.randint(0, params.get("maxlen", 4)))]] for k in ks]
+        a = rec()
+        r = rng.random()
+        if r < 0.4:
+            b = [[k, rng.sample(es, len(es))] for k, es in rng.sample(a, len(a))]
+            if rng.random() < 0.5:
+                b.append(["zz", []])
+            if rng.random() < 0.3 and b:
+                b = [x for x in b if x[1]] if rng.random() < 0.5 else b
+        elif r < 0.6 and a:
+            b = [[k, list(es)] for k, es in a]
+            k = rng.randrange(len(b))
+            b[k][1] = b[k][1] + [list(rng.choice(vals))] if rng.random() < 0.5 else b[k][1][:-1]
+        else:
+            b = rec()
+        return {"a": a, "b": b}
+
+    def run(self, case):
+        import implrun
+        impl = implrun.run_bag(case["a"], case["b"])
+        enc = lambda r: [[k, [[i, Sym(l)] for i, l in es]] for k, es in r]
+        return [enc(case["a"]), enc(case["b"])], impl
+
+    def judge(self, case, impl, res):
+        m = jsonable(res["model"][0])
+        i = [int(impl[0]), impl[1], impl[2]]
+        return std_report(case, m == i, m, i, {}, tags=[f"eq:{int(impl[0])}", f"len:{impl[1]}"],
+                          nontrivial=any(es for _, es in case["a"]) and any(es for _, es in case["b"]))
+
+
+# =============================================================================== regq
+class RegqComponent(Component):
+    name = "regq"
+
+    def make(self, rng, params):
+        owners = list(range(params.get("owners", 4)))
+        n = rng.randint(0, params.get("maxlen", 7))
+        reqs = []
+        for _ in range(n):
+            o = rng.choice(owners)
+            r = rng.random()
+            if r < 0.25:           # an instruction reading and writing the register
+                reqs.append(["R", o])
+                reqs.append(["W", o])
+            else:
+                reqs.append([rng.choice(["R", "R", "W"]), o])
+        # a permitted history is built by consulting a throw-away copy of the implementation queue
+        return {"reqs": reqs, "walk_seed": rng.randrange(1 << 30), "owners": owners}
+
+    def _ops(self, case):
+        import random
+        import implrun
+        if "ops" in case:
+            return case["ops"]
+        rng = random.Random(case["walk_seed"])
+        ra = implrun.M("reg_access")
+        ty = {"R": ra.AccessType.READ, "W": ra.AccessType.WRITE}
+        b = ra.RegAccQBuilder()
+        for t, o in case["reqs"]:
+            b.append(ty[t], o)
+        q = b.create()
+        ops = []
+        owners = case["owners"]
+        for _ in range(len(case["reqs"]) + 2):
+            for t in "RW":
+                for o in owners:
+                    ops.append(["can", t, o])
+            serv = []
+            for o in owners:
+                try:
+                    if q.can_access(ty["R"], o) or q.can_access(ty["W"], o):
+                        serv.append(o)
+                except IndexError:
+                    pass
+            if not serv or rng.random() < 0.05:
+                ops.append(["deq", rng.choice(owners)])       # possibly not permitted: must fail the same way
+                break
+            o = rng.choice(serv)
+            ops.append(["deq", o])
+            q.dequeue(o)
+        return ops
+
+    def run(self, case):
+        import implrun
+        ops = self._ops(case)
+        impl = implrun.run_regq(case["reqs"], ops)
+        enc_ops = [[Sym("can"), Sym(o[1]), o[2]] if o[0] == "can" else [Sym("deq"), o[1]] for o in ops]
+        return [[[Sym(t), o] for t, o in case["reqs"]], enc_ops], {"ops": ops, "out": impl}
+
+    def judge(self, case, impl, res):
+        m = jsonable(res["model"][0])
+        i = jsonable(impl["out"])
+        i[1] = [int(x) if isinstance(x, bool) else x for x in i[1]]
+        ndeq = sum(1 for o in impl["ops"] if o[0] == "deq")
+        c = dict(case)
+        c["ops"] = impl["ops"]
+        return std_report(c, m == i, m, i, checks_of(res), tags=[f"reqs:{len(case['reqs'])}", f"removals:{ndeq}"],
+                          nontrivial=len(case["reqs"]) >= 2 and ndeq >= 1, dig=digest([case["reqs"], impl["ops"]]))
+
+
+# =============================================================================== parse
+class ParseComponent(Component):
+    name = "parse"
+
+    def make(self, rng, params):
+        instrs = gen.rand_instr_list(rng, rng.randint(0, params.get("maxlines", 8)))
+        corrupt = None
+        r = rng.random()
+        if instrs and r < params.get("corrupt", 0.3):
+            i = rng.randrange(len(instrs))
+            corrupt = ["noops", i] if rng.random() < 0.4 else ["empty", i, rng.randrange(len(instrs[i][1]))]
+        lines = gen.render_program(rng, instrs, corrupt)
+        return {"lines": lines, "instrs": instrs, "corrupt": corrupt}
+
+    def run(self, case):
+        import implrun
+        impl = implrun.run_parse(case["lines"])
+        return [list(case["lines"])], impl
+
+    def judge(self, case, impl, res):
+        m = jsonable(res["model"][0])
+        i = jsonable(impl)
+        checks = {}
+        if str(i[0]) == "err" and i[1][0] == "CodeError" and str(m[0]) == "err":
+            # compare class, line, mnemonic; the operand position must be stated in the message
+            _, line, ins, msg = i[1]
+            _, mline, mins, mk, _mmsg = m[1]
+            agree = (line, ins) == (mline, mins)
+            ok = ins in msg and line in ints_in(msg) and (mk == "none" or mk in ints_in(msg))
+            checks["C14"] = [ok, "message names mnemonic, line and operand position"]
+        else:
+            agree = m == i
+        exp = self.expected(case)
+        if exp is not None:
+            checks["C14x"] = [exp == i, "result equals the written instructions"]
+        return std_report(case, agree, m, i, checks, tags=[f"res:{i[0]}", f"lines:{len(case['lines'])}"],
+                          nontrivial=len(case["lines"]) >= 2, sample={"lines": case["lines"]})
+
+    @staticmethod
+    def expected(case):
+        """independent oracle for generated (not replayed/enumerated) cases: the instruction list that
+        was rendered, with registers in their first spelling, sources deduplicated and sorted"""
+        if "instrs" not in case or case.get("corrupt"):
+            return None
+        reg = {}
+        out = []
+        lineno = 0
+        it = iter(case["instrs"])
+        for ln in case["lines"]:
+            lineno += 1
+            if not ln.strip():
+                continue
+            m, ops = next(it)
+            std = [reg.setdefault(o.lower(), o) for o in ops]
+            out.append([sorted(set(std[1:])), std[0], m, lineno])
+        return ["ok", out]
+
+
+# =============================================================================== isa
+class IsaComponent(Component):
+    name = "isa"
+
+    def make(self, rng, params):
+        caps = [gen.recase(rng, c, 0.3) for c in gen.CAPS[: rng.randint(1, 3)]]
+        if rng.random() < 0.15:
+            caps.append(gen.recase(rng, caps[0], 1.0))            # two spellings of one capability
+        spec = gen.rand_isa(rng, caps)
+        mn = [s[0] for s in spec] or ["ADD"]
+        prog = []
+        for k in range(rng.randint(0, 8)):
+            name = gen.recase(rng, rng.choice(mn), 0.5) if rng.random() < 0.9 else "FOO"
+            srcs = sorted({f"R{rng.randint(0, 4)}" for _ in range(rng.randint(0, 3))})
+            prog.append([srcs, f"R{rng.randint(0, 4)}", name, k + 1 + rng.randint(0, 2)])
+        return {"spec": spec, "caps": caps, "prog": prog}
+
+    def run(self, case):
+        import implrun
+        impl = implrun.run_isa(case["spec"], case["caps"], case["prog"])
+        return [case["spec"], case["caps"], case["prog"]], impl
+
+    def judge(self, case, impl, res):
+        m = jsonable(res["model"][0])
+        i = jsonable(impl)
+        checks = {}
+
+        def cmp(mr, ir):
+            if str(ir[0]) == "err" and str(mr[0]) == "err":
+                fields = ir[1]
+                msg = ir[2]
+                mf = mr[1]
+                if mf[0] == "UndefElemError" and len(mf) == 3:       # compile: name + line (line only in the message)
+                    ok = fields[:2] == mf[:2]
+                    checks["C15"] = [mf[1] in msg and mf[2] in ints_in(msg), "message names mnemonic and line"]
+                    return ok
+                checks.setdefault("C15", [all(str(f) in msg for f in fields[1:]), "message names the culprit"])
+                return fields == mf
+            return mr == ir
+        a1 = cmp(m[0], i[0])
+        a2 = (m[1] == i[1]) if (str(m[1]) == "none" or str(i[1]) == "none") else cmp(m[1], i[1])
+        return std_report(case, a1 and a2, m, i, checks,
+                          tags=[f"isa:{i[0][0]}", f"compile:{i[1][0] if isinstance(i[1], list) else i[1]}"],
+                          nontrivial=len(case["spec"]) >= 2)
+
+
+class AbilitiesComponent(Component):
+    name = "abilities"
+
+    def make(self, rng, params):
+        for _ in range(30):
+            d = gen.valid_desc(rng, params.get("nmax", 6))
+            import implrun
+            tag, p = implrun.load_desc(copy.deepcopy(d))
+            if tag == "ok":
+                return {"desc": d}
+        return None
+
+    def run(self, case):
+        import implrun
+        tag, p = implrun.load_desc(copy.deepcopy(case["desc"]))
+        if tag != "ok":
+            raise RuntimeError("description no longer accepted")
+        return [implrun.enc_proc(p)], {"proc": implrun.enc_proc(p), "out": implrun.run_abilities(p)}
+
+    def judge(self, case, impl, res):
+        m = sorted(jsonable(res["model"][0]))
+        i = impl["out"]
+        exp = sorted({c for u in impl["proc"][0] + impl["proc"][2] for c in u[2]})
+        return std_report(case, m == i, m, i, {"C15": [exp == i, "union of input and in-out port capabilities"]},
+                          tags=[f"caps:{len(i)}"], nontrivial=len(i) >= 2)
+
+
+# =============================================================================== loader
+def canon_proc(p):
+    """orders removed: classes sorted by unit name"""
+    return [sorted(p[0]), sorted(p[1]), sorted(p[2]), sorted(p[3])]
+
+
+class LoaderComponent(Component):
+    name = "loader"
+
+    def make(self, rng, params):
+        nmax = params.get("nmax", 7)
+        d = gen.valid_desc(rng, nmax) if rng.random() < params.get("valid", 0.6) else gen.rand_desc(rng, nmax)
+        kind = "plain"
+        r = rng.random()
+        dp = params.get("defect", 0.35)
+        if r < dp:
+            d, kind = gen.inject_defect(rng, d, params.get("defect_kind"))
+            if rng.random() < 0.15:
+                d, k2 = gen.inject_defect(rng, d)
+                kind += "+" + k2
+        elif r < dp + params.get("dead", 0.15):
+            for _ in range(rng.randint(1, 2)):
+                d = gen.graft_dead_branch(rng, d)
+            kind = "deadbranch"
+        if rng.random() < 0.3:
+            d = gen.add_case_noise(rng, d)
+        return {"desc": d, "kind": kind}
+
+    def run(self, case):
+        import implrun
+        d = copy.deepcopy(case["desc"])
+        enc, proc, mutated = implrun.enc_load(d)
+        return [implrun.desc_to_sx(case["desc"]), enc[:2]], {"out": enc, "mutated": mutated}
+
+    def judge(self, case, impl, res):
+        m = jsonable(res["model"][0])
+        i = jsonable(impl["out"])
+        checks = checks_of(res)
+        if str(i[0]) == "ok":
+            agree = m == i[:2]
+            outcome = "accepted"
+        else:
+            cls = i[1][0]
+            outcome = cls
+            msg = i[2]
+            if str(m[0]) != "err" or m[1][0] != cls:
+                agree = False
+            elif cls == "DeadInputError":
+                agree = i[1][1] in m[1][1]                       # any of the dead ports (set iteration order)
+            elif cls == "PathLockError":
+                agree = i[1][1:4] == m[1][1:4]
+            else:
+                agree = i[1] == m[1]
+            # C11: the message contains the culprit fields
+            flds = [f for f in i[1][1:] if not isinstance(f, list)]
+            ok = all(str(f) in msg for f in flds)
+            if "C11" in checks:
+                checks["C11"] = [checks["C11"][0] and ok, "defect present; message names the culprit"]
+        if impl["mutated"]:
+            checks["C20"] = [False, "load_proc_desc modified its argument"]
+        nun = len(case["desc"]["units"])
+        return std_report(case, agree, m, i[:2], checks,
+                          tags=[f"outcome:{outcome}", f"kind:{case.get('kind', '?')}", f"units:{nun}"],
+                          nontrivial=nun >= 3, sample={"desc": case["desc"], "outcome": outcome},
+                          dig=digest(jsonable(case["desc"])))
+
+
+class MkprocComponent(Component):
+    """ProcessorDesc built from parts supplied in an arbitrary order"""
+    name = "mkproc"
+
+    def make(self, rng, params):
+        n = rng.randint(1, params.get("nmax", 8))
+        names = rng.sample(rng.choice(gen.NAME_POOLS), n) if n <= 10 else [f"u{i}" for i in range(n)]
+        es = gen.rand_dag(rng, n)
+        if rng.random() < params.get("cyclic", 0.08) and es:
+            a, b = rng.choice(es)
+            es.append((b, a))
+        preds = {i: sorted({a for a, b in es if b == i}) for i in range(n)}
+        succs = {i: sorted({b for a, b in es if a == i}) for i in range(n)}
+        unit = lambda i: [names[i], rng.randint(1, 3), ["ALU"], bool(rng.random() < 0.3), bool(rng.random() < 0.3), []]
+        us = {i: unit(i) for i in range(n)}
+        parts = {"ins": [], "outs": [], "inouts": [], "ints": []}
+        for i in range(n):
+            pl = [names[p] for p in preds[i]]
+            rng.shuffle(pl)
+            if preds[i] and succs[i]:
+                parts["ints"].append([us[i], pl])
+            elif preds[i]:
+                parts["outs"].append([us[i], pl])
+            elif succs[i]:
+                parts["ins"].append(us[i])
+            else:
+                parts["inouts"].append(us[i])
+        for k in parts:
+            rng.shuffle(parts[k])
+        return {"parts": parts}
+
+    def run(self, case):
+        import implrun
+        import networkx
+        p = case["parts"]
+        try:
+            proc = implrun.mk_proc_from_parts({"ins": p["ins"], "outs": [tuple(f) for f in p["outs"]],
+                                               "inouts": p["inouts"], "ints": [tuple(f) for f in p["ints"]]})
+            impl = [Sym("ok"), implrun.enc_proc(proc)]
+        except networkx.NetworkXUnfeasible:
+            impl = [Sym("err"), [Sym("NetworkXUnfeasible")]]
+        return [[p["ins"], p["outs"], p["inouts"], p["ints"]], impl], impl
+
+    def judge(self, case, impl, res):
+        m = jsonable(res["model"][0])
+        i = jsonable(impl)
+        n = sum(len(v) for v in case["parts"].values())
+        return std_report(case, m == i, m, i, checks_of(res), tags=[f"res:{i[0]}", f"units:{n}",
+                          f"internal:{len(case['parts']['ints'])}"], nontrivial=len(case["parts"]["ints"]) >= 2)
+
+
+# =============================================================================== command line / pipeline
+def parse_table(text):
+    """stdout of the CLI -> (n_cycles, rows) with rows[k] = list of cells; None if malformed"""
+    lines = text.split("\n")
+    if not lines or lines[-1] != "":
+        return None
+    lines = lines[:-1]
+    if not lines:
+        return None
+    hdr = lines[0]
+    if hdr == '""':
+        hdr_cells = [""]
+    else:
+        hdr_cells = hdr.split("\t")
+    if hdr_cells[0] != "":
+        return None
+    ticks = hdr_cells[1:]
+    if ticks != [str(i) for i in range(1, len(ticks) + 1)]:
+        return None
+    rows = []
+    for k, ln in enumerate(lines[1:]):
+        cells = ln.split("\t")
+        if cells[0] != f"I{k + 1}":
+            return None
+        rows.append(cells[1:])
+    return len(ticks), rows
+
+
+def table_to_diag(T, rows):
+    """canonical diagram (list of records) described by a parsed table"""
+    d = [dict() for _ in range(T)]
+    for k, cells in enumerate(rows):
+        for t, c in enumerate(cells):
+            if c == "":
+                continue
+            if len(c) < 2 or c[1] != ":" or c[0] not in "DSU" or t >= T:
+                return None
+            d[t].setdefault(c[2:], []).append([k, Sym(c[0])])
+    return [sorted([u, sorted(es)] for u, es in r.items()) for r in d]
+
+
+class PipelineComponent(Component):
+    """processor+ISA YAML and assembly text through the command-line driver (sub-process) and through
+    the library, against the model of every stage"""
+    name = "pipeline"
+
+    def make(self, rng, params):
+        import implrun
+        for _ in range(40):
+            d = gen.valid_desc(rng, params.get("nmax", 5))
+            if any(ch in u["name"] for u in d["units"] for ch in "\t\r\n\""):
+                continue
+            tag, p = implrun.load_desc(copy.deepcopy(d))
+            if tag != "ok":
+                continue
+            caps = implrun.run_abilities(p)
+            spec = gen.rand_isa(rng, caps, n=rng.randint(1, 5), defect=0.0)
+            if not spec:
+                continue
+            instrs = gen.rand_instr_list(rng, rng.randint(0, params.get("plen", 6)), mnems=[s[0] for s in spec])
+            instrs = [[gen.recase(rng, rng.choice(spec)[0], 0.4), ops] for _, ops in instrs]
+            return {"desc": d, "isa": spec, "lines": gen.render_program(rng, instrs)}
+        return None
+
+    def run(self, case):
+        import implrun
+        import os
+        import subprocess
+        import tempfile
+        import yaml
+        import engine
+        lib = implrun.run_library(case["desc"], case["isa"], case["lines"])
+        os.makedirs(engine.WORK, exist_ok=True)
+        with tempfile.TemporaryDirectory(dir=engine.WORK) as td:
+            yp = os.path.join(td, "P.yaml")
+            ap = os.path.join(td, "prog.asm")
+            with open(yp, "w") as f:
+                yaml.safe_dump({"microarch": case["desc"], "ISA": {k: v for k, v in case["isa"]}}, f)
+            with open(ap, "w", newline="") as f:
+                f.write("".join(ln if ln.endswith("\n") else ln + "\n" for ln in case["lines"]))
+            env = dict(os.environ)
+            env["PYTHONPATH"] = os.path.join(engine.HERE, "compat") + os.pathsep + os.path.join(implrun.REPO, "src")
+            p = subprocess.run(["/venv/bin/python", os.path.join(implrun.REPO, "src", "processor_sim.py"),
+                                "--processor", yp, ap], capture_output=True, text=True, env=env, timeout=120)
+        out = {"lib": lib, "rc": p.returncode, "stdout": p.stdout}
+        parsed = parse_table(p.stdout) if p.returncode == 0 else None
+        diag = table_to_diag(*parsed) if parsed else None
+        out["parsed"] = diag
+        args = [implrun.desc_to_sx(case["desc"]), case["isa"],
+                [ln if ln.endswith("\n") else ln + "\n" for ln in case["lines"]]]
+        if diag is not None:
+            args.append([Sym("Done"), diag])
+        return args, out
+
+    def judge(self, case, impl, res):
+        m = jsonable(res["model"][0])
+        lib = jsonable(impl["lib"])
+        completes = "sim" in lib and lib["sim"][0] == "Done"
+        checks = {}
+        if completes:
+            ok = impl["rc"] == 0 and impl["parsed"] is not None
+            # C16: the printed table is exactly the library's diagram, cell by cell
+            checks["C16"] = [ok and jsonable(impl["parsed"]) == lib["sim"][1]
+                             and self._shape_ok(impl["stdout"], lib["sim"][1], len(lib["hw"])),
+                             "printed cells = library diagram"]
+            agree = str(m[0]) == "ok" and m[1] == impl["stdout"] and m[2] == lib["proc"] and m[3] == lib["hw"] \
+                and m[4] == lib["sim"][1]
+            if str(m[0]) == "ok" and len(m) > 6 and m[5]:
+                for e in m[6][1:]:
+                    checks["T" + str(e[0])] = [bool(e[1]), "diagram property on the printed table"]
+            mm, ii = m[:5], ["ok", impl["stdout"], lib.get("proc"), lib.get("hw"), lib["sim"][1]]
+        else:
+            agree = str(m[0]) != "ok"                    # model must not complete either
+            mm, ii = m[:2], lib
+        ncyc = len(lib["sim"][1]) if completes else 0
+        return std_report(case, agree, mm, ii, checks, tags=[f"completes:{int(completes)}", f"rc:{impl['rc']}"],
+                          in_domain=completes, nontrivial=completes and ncyc >= 3,
+                          sample={"stdout": impl["stdout"][:400], "lines": case["lines"]})
+
+    @staticmethod
+    def _shape_ok(text, diag, n):
+        parsed = parse_table(text)
+        if parsed is None:
+            return False
+        T, rows = parsed
+        return T == len(diag) and len(rows) == n
+
+
+# =============================================================================== re-casing (C13)
+def recase_desc(rng, d):
+    """change only the letter case of NON-defining name occurrences"""
+    d = copy.deepcopy(d)
+    seen = set()
+    for u in d["units"]:
+        newc = []
+        for c in u["capabilities"]:
+            if c.lower() in seen:
+                newc.append(gen.recase(rng, c, 0.8))
+            else:
+                seen.add(c.lower())
+                newc.append(c)
+        u["capabilities"] = newc
+    for u in d["units"]:
+        if "memoryAccess" in u:
+            u["memoryAccess"] = [gen.recase(rng, c, 0.8) for c in u["memoryAccess"]]
+    d["dataPath"] = [[gen.recase(rng, x, 0.8) for x in e] for e in d["dataPath"]]
+    return d
+
+
+def recase_lines(rng, lines):
+    """re-case mnemonics and every register occurrence after its first one"""
+    import re
+    seen = set()
+    out = []
+    for ln in lines:
+        m = re.match(r"^(\s*)(\S+)(\s+)(.*?)(\s*)$", ln, re.S)
+        if not m:
+            out.append(ln)
+            continue
+        lead, mn, sp, ops, tail = m.groups()
+        parts = re.split(r"(\s*,\s*)", ops)
+        for k in range(0, len(parts), 2):
+            key = parts[k].lower()
+            if key in seen:
+                parts[k] = gen.recase(rng, parts[k], 0.8)
+            else:
+                seen.add(key)
+        out.append(lead + gen.recase(rng, mn, 0.8) + sp + "".join(parts) + tail)
+    return out
+
+
+class RecaseComponent(Component):
+    """metamorphic: an input and a re-casing of its non-defining name occurrences give the same loaded
+    processor, instruction set, compiled program and diagram (and both agree with the model)"""
+    name = "recase"
+    driver = "pipeline"
+
+    def make(self, rng, params):
+        import implrun
+        for _ in range(40):
+            d = gen.valid_desc(rng, params.get("nmax", 5))
+            if rng.random() < 0.2:
+                d, _k = gen.inject_defect(rng, d, rng.choice(["dupname", "undef", "badwidth", "deadinput", "locks"]))
+            tag, p = implrun.load_desc(copy.deepcopy(d))
+            caps = implrun.run_abilities(p) if tag == "ok" else ["ALU"]
+            spec = gen.rand_isa(rng, caps, n=rng.randint(1, 5), defect=0.05)
+            instrs = gen.rand_instr_list(rng, rng.randint(0, 6), mnems=[s[0] for s in spec] or ["ADD"])
+            if spec:
+                instrs = [[rng.choice(spec)[0] if rng.random() < 0.97 else m, ops] for m, ops in instrs]
+            lines = gen.render_program(rng, instrs)
+            d2 = recase_desc(rng, d)
+            spec2 = [[m, gen.recase(rng, c, 0.8)] for m, c in spec]
+            lines2 = recase_lines(rng, lines)
+            return {"desc": d, "isa": spec, "lines": lines, "desc2": d2, "isa2": spec2, "lines2": lines2}
+        return None
+
+    def run(self, case):
+        import implrun
+        l1 = implrun.run_library(case["desc"], case["isa"], case["lines"])
+        l2 = implrun.run_library(case["desc2"], case["isa2"], case["lines2"])
+        nl = lambda ls: [ln if ln.endswith("\n") else ln + "\n" for ln in ls]
+        return {"multi": [[implrun.desc_to_sx(case["desc"]), case["isa"], nl(case["lines"])],
+                          [implrun.desc_to_sx(case["desc2"]), case["isa2"], nl(case["lines2"])]]}, [l1, l2]
+
+    def judge(self, case, impl, res):
+        l1, l2 = jsonable(impl[0]), jsonable(impl[1])
+        m1, m2 = jsonable(res[0]["model"][0]), jsonable(res[1]["model"][0])
+
+        def norm(l):
+            if "err" in l:
+                return ["err", l["err"][0]]
+            return [l["proc"], l["hw"], l["sim"]]
+
+        def norm_m(m):
+            if str(m[0]) == "ok":
+                return [m[2], m[3], ["Done", m[4]]]
+            return m
+        same = norm(l1) == norm(l2) and l1.get("isa") == l2.get("isa")
+        # errors must also report the same (first-spelling) culprit
+        if "err" in l1 and "err" in l2:
+            low = lambda x: jsonable(x).lower() if isinstance(x, str) else \
+                ({k: low(v) for k, v in x.items()} if isinstance(x, dict) else
+                 ([low(v) for v in x] if isinstance(x, list) else x))
+            same = same and low(l1["err"][:2]) == low(l2["err"][:2])
+        def agree_one(l, m):
+            if "err" in l:
+                return str(m[0]) == "err"
+            if l["sim"][0] != "Done":
+                return str(m[0]) == "err"
+            return norm_m(m) == norm(l)
+        agree = agree_one(l1, m1) and agree_one(l2, m2)
+        rep = std_report(case, agree, [m1[:2], m2[:2]], [norm(l1), norm(l2)], {},
+                         tags=["res:" + ("err" if "err" in l1 else str(l1["sim"][0]))],
+                         nontrivial=case["desc"] != case["desc2"] or case["lines"] != case["lines2"])
+        if not same:
+            rep["meta_fail"] = "re-casing non-defining occurrences changed the result"
+            rep["impl"] = {"original": l1, "recased": l2}
+        return rep
+
+
+COMPONENTS = {c.name: c for c in [SimComponent(), IcaseComponent(), BagComponent(), RegqComponent(),
+                                  ParseComponent(), IsaComponent(), AbilitiesComponent(), LoaderComponent(),
+                                  MkprocComponent(), PipelineComponent(), RecaseComponent()]}
